@@ -439,6 +439,7 @@ func run(newCfg *Config, start bool) (Context, error) {
 		globalMetrics.configSuccess.Set(0)
 		ctx.cfg.cancelFunc() // clean up the provisioned modules
 		restoreDefaultStorage()
+		ctx.cfg.Logging.restoreDefaultLogger()
 		return ctx, err
 	}
 
@@ -469,6 +470,7 @@ func run(newCfg *Config, start bool) (Context, error) {
 		// were stopped above), so clean up its provisioned modules
 		ctx.cfg.cancelFunc()
 		restoreDefaultStorage()
+		ctx.cfg.Logging.restoreDefaultLogger()
 		return ctx, err
 	}
 	globalMetrics.configSuccess.Set(1)
@@ -486,6 +488,7 @@ func run(newCfg *Config, start bool) (Context, error) {
 		// and clean up its provisioned modules
 		unsyncedStop(ctx)
 		restoreDefaultStorage()
+		ctx.cfg.Logging.restoreDefaultLogger()
 		return ctx, err
 	}
 	return ctx, nil
@@ -529,6 +532,7 @@ func provisionContext(newCfg *Config, replaceAdminServer bool) (Context, error) 
 
 			// also undo any other state changes we made
 			restoreDefaultStorage()
+			newCfg.Logging.restoreDefaultLogger()
 		}
 	}()
 	newCfg.cancelFunc = cancel // clean up later
@@ -761,8 +765,10 @@ func Validate(cfg *Config) error {
 		cfg.cancelFunc() // call Cleanup on all modules
 
 		// provisioning made cfg's storage CertMagic's
-		// default storage; cfg is not going to run
+		// default storage and its default log the default
+		// logger; cfg is not going to run
 		restoreDefaultStorage()
+		cfg.Logging.restoreDefaultLogger()
 	}
 	return err
 }
